@@ -551,6 +551,24 @@ func genGE(cfg *config, r *rng, i int, s *sink) string {
 		az2 := az1 + 5 + r.float01()*170
 		la := math.Pow(10, 1+r.float01()*5) // 10 m .. 1000 km
 		lb := math.Pow(10, 1+r.float01()*5)
+		lopsided := r.chance(1, 6)
+		if lopsided {
+			// a lap-line sized segment against a very long one whose middle is far from the crossing
+			la = 10 + r.float01()*15
+			lb = math.Pow(10, 5+r.float01())
+			if r.bool() {
+				la, lb = lb, la
+			}
+			s.count("ge.ix.lopsided")
+		}
+		if r.chance(1, 8) {
+			// near a pole, where segments of a few hundred kilometres span a quarter turn of longitude and more
+			latC = pick(r, []float64{1, -1}) * (84 + r.float01()*5.5)
+			if la < 1e5 && lb < 1e5 {
+				la, lb = math.Pow(10, 5+r.float01()*0.9), math.Pow(10, 5+r.float01()*0.9)
+			}
+			s.count("ge.ix.polar")
+		}
 		// fraction of each segment at which C lies: inside (0.05..0.95) or outside (-1..-0.05, 1.05..2)
 		frac := func() (float64, bool) {
 			if r.chance(2, 3) {
@@ -563,6 +581,14 @@ func genGE(cfg *config, r *rng, i int, s *sink) string {
 		}
 		fa, insA := frac()
 		fb, insB := frac()
+		if lopsided && r.chance(2, 3) {
+			// the crossing lies outside the long segment, up to a whole length from its nearer end
+			if la > lb {
+				fa, insA = pick(r, []float64{-0.95, -0.5, 1.5, 1.95}), false
+			} else {
+				fb, insB = pick(r, []float64{-0.95, -0.5, 1.5, 1.95}), false
+			}
+		}
 		var a1la, a1lo, a2la, a2lo, b1la, b1lo, b2la, b2lo float64
 		geodesic.WGS84.Direct(latC, lonC, az1, -fa*la, &a1la, &a1lo, nil)
 		geodesic.WGS84.Direct(latC, lonC, az1, (1-fa)*la, &a2la, &a2lo, nil)
